@@ -233,7 +233,7 @@ func CheckedAs[T fixed.Dx, TO xmath.Numeric](f Int[T]) (TO, error) {
 	switch reflect.TypeOf(n).Kind() {
 	case reflect.Float32, reflect.Float64:
 		n = TO(float64(f) / float64(Multiplier[T]()))
-		if strconv.FormatFloat(float64(n), 'g', -1, reflect.TypeOf(n).Bits()) != f.String() {
+		if strconv.FormatFloat(float64(n), 'f', -1, reflect.TypeOf(n).Bits()) != f.String() {
 			return 0, fixed.ErrDoesNotFitInRequestedType
 		}
 	default:
